@@ -347,6 +347,43 @@ impl Type {
         }
     }
 
+    /// Text of the type that does not depend on the order in which union members and
+    /// struct fields are iterated (used to choose among union members deterministically)
+    pub(crate) fn canonical_string(&self) -> String {
+        fn list<'a>(types: impl Iterator<Item = &'a Type>) -> String {
+            types
+                .map(Type::canonical_string)
+                .collect::<Box<[_]>>()
+                .join(",")
+        }
+        match self {
+            Type::Function(function) => format!(
+                "({})->({})",
+                list(function.params.iter()),
+                function.return_type.canonical_string()
+            ),
+            Type::Array(element) => format!("[{}]", element.canonical_string()),
+            Type::Tuple(types) => format!("({})", list(types.iter())),
+            Type::Mut(element) => format!("mut({})", element.canonical_string()),
+            Type::Multi(multi) => {
+                let mut members: Box<[String]> =
+                    multi.iter().map(Type::canonical_string).collect();
+                members.sort_unstable();
+                members.join("|")
+            }
+            Type::Struct(struct_type) => {
+                let mut fields: Box<[String]> = struct_type
+                    .0
+                    .iter()
+                    .map(|(key, value)| format!("{key}:{}", value.canonical_string()))
+                    .collect();
+                fields.sort_unstable();
+                format!("struct{{{}}}", fields.join(","))
+            }
+            other => other.to_string(),
+        }
+    }
+
     // Return true if self is struct and has field with given ident
     pub fn has_field(&self, ident: &str) -> bool {
         match self {
